@@ -268,3 +268,16 @@ Section Termination.
         * apply not_fuel_prepend. apply IH. cbn [c_tr]. unfold_num. simpl in Hk. lra.
   Qed.
 End Termination.
+
+(* the hypotheses on the settings are satisfiable (the defaults of get_settings) *)
+Definition default_settings_R : settings R :=
+  {| s_t1 := 1 / 4; s_t2 := 7 / 4; s_eta1 := 1 / 10000000000; s_eta2 := 1 / 10; s_eta3 := 1 / 2;
+     s_max_trust_iters := 100; s_tol := 1 / 100000000; s_max_cg_iters := 50;
+     s_max_cumulative_cg_iters := 1000; s_cg_tol := 2 / 10 * (1 / 100000000); s_cg_ratio := 1 / 100000;
+     s_tr_size := 2; s_min_tr_size := 1 / 100000000; s_use_pc_ip := false; s_use_incremental := false |}.
+Lemma default_settings_admissible :
+  0 < s_t1 default_settings_R < 1 /\ 0 < s_min_tr_size default_settings_R /\
+  s_eta1 default_settings_R <= s_eta2 default_settings_R /\ 0 <= s_eta1 default_settings_R /\
+  s_use_incremental default_settings_R = false /\
+  s_tr_size default_settings_R * s_t1 default_settings_R ^ 14 < s_min_tr_size default_settings_R.
+Proof. cbn. repeat split; lra. Qed.
